@@ -129,6 +129,26 @@ def r2(cx):
         if t["callee"] == "parking_lot::lock_api::RwLock::<R, T>::write" and M.has_field(M.operand_origins(lb, t["args"][0], at=(bi, M.T)), None, ".registered_metrics_paths"):
             if not lb.dominated_by_edges(bi, rs | es):
                 early_w.append(bi)
+    # ... and right after it: between a successful (re-)registration and the record's write nothing can fail or suspend - a fallible or awaited step there (pre-collecting
+    # statistics, warming a cache) leaves the table bound to this call's set and the record naming the previous one whenever it fails or the request is dropped
+    rec_blocks = {bi for bi, t in lb.calls() if t["callee"] == "parking_lot::lock_api::RwLock::<R, T>::write" and M.has_field(M.operand_origins(lb, t["args"][0], at=(bi, M.T)), None, ".registered_metrics_paths")}
+    errx_l = {e[0] for e in M.exit_defs(lb) if e[2] == "err"}
+    gap = None
+    for e in rs | es:
+        if not any(lb.reaches(e[1], r) or e[1] == r for r in rec_blocks):
+            continue
+        reach = lb.reachable(e[1], removed_blocks=rec_blocks) | {e[1]}
+        reach -= rec_blocks
+        ys = [x for x in sorted(reach) if lb.term(x)["k"] == "yield"]
+        er = sorted(errx_l & reach)
+        if ys or er:
+            gap = (ys or er)[0]
+    if gap is not None:
+        cx.violation(lk, "record-immediately-after-registration", "%s: after the table was (re-)registered the routine can still fail or be suspended before it records the registered set: on that path "
+                     "`metrics` is bound to this call's chunks while the record names the previous set, and the next request for the previous set takes the equality short-cut against the "
+                     "wrong chunks" % lb.sp(gap), [lb.sp(gap)])
+    elif rec_blocks:
+        cx.passed(lk, "record-immediately-after-registration", [lb.sp(sorted(rec_blocks)[0])])
     if early_w:
         cx.violation(lk, "record-written-after-registration", "%s: the record of the registered chunk set is written before the table registration it describes has succeeded" % lb.sp(early_w[0]), [lb.sp(early_w[0])])
     elif n_w >= 1:
